@@ -440,9 +440,9 @@ impl<'a> RefExec<'a> {
             pc: 0,
             loops: vec![],
             steps: 0,
-            size_cap: 1 << 20,
+            size_cap: 1 << 16,
             stack_units: 0,
-            total_cap: 1 << 22,
+            total_cap: 1 << 19,
             executed_kinds: Default::default(),
             sig_ok: 0,
             loops_iterated: 0,
